@@ -57,13 +57,33 @@ Theorem history_sum_never_reset :
     req (getn (h_g A s') v) = true -> has_fn (getn (h_g A s') v) = false ->
     h_b A s' v = if reached A (h_g A s) h v
                  then Some (vadd A (oget A (h_b A s v)) (vsum A (contribs A (h_g A s) (h_w A s) h v)))
-                 else h_b A s v.
+                 else if touched A (h_g A s) h v then Some (oget A (h_b A s v)) else h_b A s v.
 Proof.
   intros A Aok h s s' v Hv Hb Hrun Hno Hr Hf.
   apply (history_sum_never_reset A Aok dfs_spec_holds h s s' v Hv Hb Hrun Hno). right. auto.
 Qed.
 Goal True. idtac "ASSUMPTIONS history_sum_never_reset". Abort.
 Print Assumptions history_sum_never_reset.
+
+(* A backward call that FAILS and is caught by the caller (gradient of the wrong shape: the check comes after the ordering
+   loop and its zero_() calls; or a root that does not require grad: refused before anything happens) changes no leaf
+   gradient value: the only leaf-level effect is that an absent buffer of a requires-grad leaf strictly below the root
+   becomes a zero buffer.  Together with history_accumulates (whose specification treats BackwardFails exactly so) this says
+   that every later correct call contributes exactly what it would have contributed had the failed call never happened. *)
+Theorem failed_call_changes_no_leaf_value :
+  forall (A : galg), galg_ok A ->
+  forall (s s' : hstate A) r v,
+    valid_state A s -> step A s (BackwardFails r) = Some s' ->
+    req (getn (h_g A s) v) = true -> has_fn (getn (h_g A s) v) = false ->
+    oget A (h_b A s' v) = oget A (h_b A s v) /\ (forall x, h_b A s v = Some x -> h_b A s' v = Some x) /\
+    (h_b A s' v = h_b A s v \/
+     (h_b A s v = None /\ h_b A s' v = Some (vzero A) /\ touches (h_g A s) r v = true)).
+Proof.
+  intros A Aok s s' r v Hv Hstep Hr Hf.
+  apply (failed_call_keeps_values A Aok dfs_spec_holds s r s' v Hv Hstep). right. auto.
+Qed.
+Goal True. idtac "ASSUMPTIONS failed_call_changes_no_leaf_value". Abort.
+Print Assumptions failed_call_changes_no_leaf_value.
 
 (* a call does not change any tensor (leaf or not) that its root does not reach *)
 Theorem unreachable_unchanged :
@@ -141,6 +161,14 @@ Example leaf_root_twice :
   let h := [B leafn []%Z; Bwd 0 1%Z; Bwd 0 1%Z] in
   final h = Some [Some 2]%Z /\ final (h ++ [@ZeroTensor ZAlg 0; Bwd 0 1%Z]) = Some [Some 1]%Z.
 Proof. vm_compute. auto. Qed.
+
+(* a failed call between two correct ones: x ; y = 3x ; z = 2y ; z.backward() ; z.backward(wrong shape) [caught] ; z.backward()
+   -> x.grad = 6 + 6 ; a leaf p that only the failed call reaches (q = 5p ; q.backward(wrong shape)) gets a zero buffer *)
+Example failed_call_in_between :
+  let h := [B leafn []%Z; B (opn [0]) [3]%Z; B (opn [1]) [2]%Z; Bwd 2 1%Z; @BackwardFails ZAlg 2; Bwd 2 1%Z;
+            B leafn []%Z; B (opn [3]) [5]%Z; @BackwardFails ZAlg 4; @BackwardFails ZAlg 0] in
+  builds_ok ZAlg 0 h /\ final h = Some [Some 12; None; Some 1; Some 0; None]%Z.
+Proof. vm_compute. repeat split; try discriminate; try reflexivity; repeat constructor. Qed.
 
 (* micro-batch accumulation over two graphs sharing a parameter, module reset in between *)
 Example accumulate_then_reset :
